@@ -119,6 +119,8 @@ def check_outputs(snaps: list[dict[str, Any]], files: list[OutFile], outconf: di
                     return
                 got = np.asarray(f.pvars[name], float)
                 want = np.asarray(last_snap["part"][name])
+                if want.dtype.kind in "USO":  # time-typed variables released from a file are held as ISO strings
+                    want = want.astype("M8[s]")
                 if want.dtype.kind == "M":
                     want = (want.astype("M8[s]") - ref) / np.timedelta64(1, "s")
                 want = np.asarray(want, float)[:npid]
